@@ -160,6 +160,11 @@ var verifC20TrickPaths = []struct {
 	{"/kapacitor//v1/config/x", BasePath + "/config/x"},
 	{BasePath + "/tasks/../config/x", BasePath + "/config/x"},
 	{BasePath + "/config/../tasks", BasePath + "/tasks"},
+	// the preview base path is rewritten to the base path and dispatched again (rewritePreview)
+	{BasePreviewPath + "/tasks", BasePath + "/tasks"},
+	{BasePreviewPath + "/config/x", BasePath + "/config/x"},
+	{BasePreviewPath + "/config/../tasks", BasePath + "/tasks"},
+	{BasePreviewPath + "/../v1/config/x", BasePath + "/config/x"},
 }
 
 // VerifC20PathTricks: the subtree route /config/ behind the real mux and authorisation,
@@ -187,6 +192,7 @@ func VerifC20PathTricks(v *vrt.T) {
 	servedConfig, servedTasks := false, false
 	v.Assert(h.addRawRoute(Route{Method: method, Pattern: BasePath + "/config/", HandlerFunc: func(w http.ResponseWriter, r *http.Request) { servedConfig = true }, NoGzip: true, NoJSON: true}) == nil, "route added")
 	v.Assert(h.addRawRoute(Route{Method: method, Pattern: BasePath + "/tasks", HandlerFunc: func(w http.ResponseWriter, r *http.Request) { servedTasks = true }, NoGzip: true, NoJSON: true}) == nil, "route added")
+	v.Assert(h.addRawRoute(Route{Method: method, Pattern: BasePreviewPath + "/", HandlerFunc: h.rewritePreview, NoGzip: true, NoJSON: true}) == nil, "preview route added (as NewHandler does)")
 	w := &verifRW{h: http.Header{}}
 	h.ServeHTTP(w, &http.Request{Method: method, URL: &url.URL{Path: tp.raw, RawQuery: "u=bob&p=pw"}, Header: http.Header{}})
 
@@ -215,6 +221,9 @@ func VerifC20PathTricks(v *vrt.T) {
 	}
 	if servedTasks {
 		v.Assert(tp.canonical == BasePath+"/tasks" && granted("/api"), "the tasks handler serves only its own canonical path, authorised for /api/tasks")
+		if tp.raw == BasePreviewPath+"/tasks" {
+			v.Reach("served through the preview path")
+		}
 	}
 	if tp.raw == tp.canonical && underConfig {
 		v.Assert(servedConfig == granted("/api/config", "/api"), "a canonical request is served exactly when authorised")
